@@ -85,7 +85,9 @@ class CustomFieldsGenerator:
 
     def generate(self) -> ast.Module:
         """Generates an AST module containing the custom fields and required imports."""
+        imports_count = len(self.argument_generator.imports)
         self.argument_generator.add_custom_scalar_imports()
+        self._imports.extend(self.argument_generator.imports[imports_count:])
         module = generate_module(
             body=cast(List[ast.stmt], self._imports + self._class_defs),
         )
